@@ -468,12 +468,14 @@ class Engine:
         return len(a['variants']) if a and t.get('is_enum') else None
 
     # ------------------------------------------------------------ execution
-    def summarize(self, body, args=None):
-        """returns a list of path summaries (dicts)"""
+    def summarize(self, body, args=None, store=None, frame=0):
+        """returns a list of path summaries (dicts); `store` pre-populates the state (closure bodies evaluated
+        in the context of the path that created the closure)"""
         self.npaths = 0
         st = State()
-        frame = 0
-        st.nframes = 1
+        if store:
+            st.store = dict(store)
+        st.nframes = frame + 1
         n = body['argc']
         args = args or [('param', i + 1) for i in range(n)]
         for i, a in enumerate(args):
